@@ -30,7 +30,9 @@ void harness(void)
     }
     c02_shift_loop(a + F, a + Dlo, N, is_move != 0, backward != 0);
     c02_shift_sparse(b + F, b + L, b + Dlo, N, is_move != 0, backward != 0);
-    if (k < 4) __CPROVER_assert(a[k].g_bits == b[k].g_bits, "stub cross-check: tracked slot g_k: the summary leaves the state and value of the element-wise loop");
-    if (j < 4) __CPROVER_assert(a[j].g_bits == b[j].g_bits, "stub cross-check: tracked slot g_j: the summary leaves the state and value of the element-wise loop");
+    /* a self-move-assignment (*p = std::move(*p)) leaves a live element with an unspecified value in both versions: compare the state only */
+    unsigned char cmpmask = (is_move && Dlo == F) ? 3 : 0xFF;
+    if (k < 4) __CPROVER_assert((a[k].g_bits & cmpmask) == (b[k].g_bits & cmpmask), "stub cross-check: tracked slot g_k: the summary leaves the state and value of the element-wise loop");
+    if (j < 4) __CPROVER_assert((a[j].g_bits & cmpmask) == (b[j].g_bits & cmpmask), "stub cross-check: tracked slot g_j: the summary leaves the state and value of the element-wise loop");
     CANARY("stub cross-check end reachable");
 }
